@@ -87,6 +87,13 @@ def run_lane(spec, tier, mg):
 
     res = common.new_result()
     families = {m["name"]: _spellings(m) for m in spec["members"]}
+    for m in spec["members"]:
+        if m["kind"] == "ufunc" and m["ufunc"] != "matmul":
+            # the dtype= option, alone and together with a Tensor out= target (a family of its own: computed in float64 by every member)
+            n, args = m["ufunc"], ("{a}" if m["nin"] == 1 else "{a}, {b}")
+            families[m["name"]] = families[m["name"]] + ["mg.%s(%s, dtype=np.float64)" % (n, args), "np.%s(%s, dtype=np.float64)" % (n, args),
+                                                         "mg.%s(%s, out=O64(), dtype=np.float64)" % (n, args), "np.%s(%s, out=O64(), dtype=np.float64)" % (n, args),
+                                                         "mg.%s(%s, out=O64().data, dtype=np.float64)" % (n, args)]
     env = dict(os.environ)
     env["PYTHONPATH"] = os.path.join(common.REPO, "src")
     lane = os.path.join(common.VERIF, "harness", "c11_lane.py")
